@@ -4,7 +4,40 @@ import json, os
 V = os.path.dirname(os.path.dirname(os.path.abspath(__file__)))
 props = [json.loads(l) for l in open(os.path.join(V, "properties.jsonl"))]
 
+A_NOTE = "Inputs come from the structured finite alphabets of DESIGN.md section 3 (keys, nonce seeds, message lengths/classes, footers, assertions), not from {0,1}^256 or UTF-8*; cryptographic strength is not claimed. Hooks: RNG tap + frozen clock under --cfg rusty_paseto_verif; each affected check also runs a free-running pass."
 CHECKS = {
+ "C01": dict(engine="A-choice-tree", design_ref="5/C01",
+   technique="stateless exhaustive enumeration of a choice tree (deviation bounds 0,1,2 then full cartesian product), one execution of the real crate per path, identity oracle",
+   text="Every path of the (protocol x layer x key x nonce seed x message length x content class x footer x assertion) choice tree is executed on the real crate at all three API layers and must return the original message. quick: all paths with <=2 deviations from the default plus the full product over a reduced alphabet; thorough: the full product (about 830k executions) plus every length 0..=300.",
+   note=A_NOTE),
+ "C02": dict(engine="A-choice-tree", design_ref="5/C02",
+   technique="stateless exhaustive enumeration of a choice tree (deviation bounds 0,1,2 then full cartesian product), one sign+verify on the real crate per path, identity oracle",
+   text="Same explorer as C01 over the asymmetric key pools (8 Ed25519 pairs and 6 P-384 pairs whose public halves come from the independent Python reference, 3 RSA-2048 pairs): every path signs and verifies at all three layers and must return the original message.",
+   note=A_NOTE),
+ "C03": dict(engine="A-choice-tree", design_ref="5/C03",
+   technique="exhaustive enumeration of explicitly listed mutation neighbourhoods of authentic tokens (all single-bit flips, all single-character substitutions/insertions/deletions, all prefixes, suffix extensions, boundary shifts, splices, non-canonical base64, signature re-encodings; thorough: all bit-flip pairs), each presented to the real entry points; acceptance-predicate oracle",
+   text="For every base token (protocol x key x message x footer x assertion) every element of nine (thorough: ten) mutation families is presented to the core, generic and batteries-included entry points. Oracle R2: only the issued text, an added/removed empty trailing segment or a signature-only re-encoding may be accepted, and then the original content must come back; every other mutant must be an Err of the authentication/format class (never UTF-8/JSON/claim) with zero validator calls.",
+   note=A_NOTE),
+ "C04": dict(engine="A-choice-tree", design_ref="5/C04",
+   technique="exhaustive enumeration of ordered key pairs and of all single-bit neighbours of the accepting key, each run on the real crate; acceptance-predicate oracle with positive control",
+   text="All ordered pairs of pool keys x message x footer/assertion at every layer, all single-bit neighbours of the accepting key (local: both directions), P-384 other-parity point: presenting under K' != K must fail, under K must succeed.",
+   note=A_NOTE),
+ "C05": dict(engine="A-choice-tree", design_ref="5/C05",
+   technique="exhaustive enumeration of all ordered (built footer, expected footer) pairs and of all single-character edits / removal / replacement / addition of the footer segment, on the real crate; iff-oracle",
+   text="For all 8 protocols x 3 layers: accept iff the expected footer equals the built one (none == empty) over all ordered pairs of a 12-element footer domain (prefixes, extensions, case changes, last-base64-character neighbours, 1 KiB, NUL and dots), the produced footer segment is exactly the unpadded base64url of F, and every edit of the footer segment is rejected.",
+   note=A_NOTE),
+ "C06": dict(engine="A-choice-tree", design_ref="5/C06",
+   technique="exhaustive enumeration of all ordered (built assertion, supplied assertion) pairs and of (footer, assertion) splits of one concatenation, on the real crate; iff-oracle plus non-storage observations",
+   text="v3/v4 x purpose x layer: accept iff the supplied assertion equals the built one over all ordered pairs of a 9-element domain and the split pairs; token length is independent of the assertion and its bytes (raw or base64) never occur in the token.",
+   note=A_NOTE),
+ "C07": dict(engine="A-choice-tree", design_ref="5/C07",
+   technique="full enumeration of the 56 ordered protocol pairs x {verbatim, header rewritten} x shared key material x layer, on the real crate",
+   text="Every ordered pair (X, Y), X != Y: a token issued by X is presented to Y's three entry points verbatim and with its header rewritten, using the same key bytes wherever both protocols accept them (32-byte symmetric keys, Ed25519 keys across v2/v4, public-key bytes as symmetric key and back). All must be rejected; X's own entry point accepts (control).",
+   note=A_NOTE),
+ "C09": dict(engine="A-choice-tree", design_ref="5/C09",
+   technique="exhaustive enumeration of structured hostile inputs (every decoded length 0..=400 behind each header, every token prefix, all strings of 0..6 segments over a 7-element alphabet, 1 MiB strings, hostile payloads, every hex length 0..=200) on all 24 entry points under catch_unwind with overflow checks",
+   text="All 24 decrypt/verify/parse entry points plus Key::<N>::try_from(&str) are called on every element of the listed input families; any panic (located by file:line) is a violation, as is a wrong-length hex key reported as success.",
+   note="A panic is observed through catch_unwind with overflow-checks on; an abort (allocation failure, stack overflow) would kill the explorer and surface as a machinery error."),
  "C20": dict(engine="C-lattice", design_ref="5/C20",
    technique="explicit-state enumeration of the feature-subset lattice; cargo build+run of a cfg-gated smoke client per state",
    text="Every configuration of the stated space (quick: 8 singletons, 28 pairs, full set x 3 layers + default + none = 113; thorough: all 767) is built from /repo's working tree and its smoke client run; every enabled (protocol, layer) block must round-trip. Exhaustive over the configuration space the property quantifies over; monotonicity follows because the client source is identical in every configuration.",
@@ -42,7 +75,7 @@ def main():
             "add_only": True,
         },
         "engines": [
-            {"name": "A-choice-tree", "path": "harness/src/explore.rs", "serves_properties": [], "kind_free_text": "stateless exhaustive enumeration of a tree of named finite choice points, one execution of the real crate per path; deviation-bounded and full-product modes"},
+            {"name": "A-choice-tree", "path": "harness/src/explore.rs", "serves_properties": ["C01","C02","C03","C04","C05","C06","C07","C09"], "kind_free_text": "stateless exhaustive enumeration of a tree of named finite choice points, one execution of the real crate per path; deviation-bounded and full-product modes"},
             {"name": "B-stateright", "path": "harness/src/models", "serves_properties": [], "kind_free_text": "stateright 0.31 BFS over a reference model; every transition replays the call history on the real object"},
             {"name": "C-lattice", "path": "c20/run.py", "serves_properties": ["C20"], "kind_free_text": "explicit enumeration of feature configurations / generated client programs with cargo as transition function"},
         ],
